@@ -38,6 +38,22 @@ Print Assumptions jac_formal.
 Print Assumptions jac_omitted_is_zero.
 Print Assumptions removed_occurrence_is_leibniz.
 
+(** text level: the text of an emitted Jacobian entry ("0.0" followed by
+    " - k[l]*y[IDX_b]" ...), lexed and parsed as C, evaluates to the formal derivative
+    of the row - for every network, entry and valuation (entries holding a modifier
+    factor, which is arbitrary text, are excluded by the decidable premise) *)
+From Naunet Require Import Model.CExpr Model.OdeText Proofs.OdeTextProofs.
+Theorem jac_text_is_derivative :
+  forall (R : Type) (rO rI : R) (radd rmul rsub : R -> R -> R) (ropp : R -> R),
+  ring_theory rO rI radd rmul rsub ropp (@eq R) ->
+  forall (E : env R) (i : ode_input) (row col : nat) (ts : list tterm),
+  wf_input i -> row < n_eqns i -> col < n_eqns i -> tterms_of (jac_entry i row col) = Some ts ->
+  exists e, parse (rhs_txt ts) = Some e /\
+            den R rO radd rmul rsub E e = deqn R rO rI radd rmul ropp E col (rhs_row i row).
+Proof. intros R rO rI radd rmul rsub ropp Rth. exact (jac_text_lemma R rO rI radd rmul rsub ropp Rth). Qed.
+Print Assumptions jac_text_is_derivative.
+
+
 From Coq Require Import Reals RealField.
 From Coquelicot Require Import Coquelicot.
 From Naunet Require Import Proofs.OdeReal.
